@@ -38,6 +38,19 @@ func init() {
 			},
 			Plan: planC04,
 			Exec: execC04,
+			// "regardless of process": a sample of the histories, and every history that brings a
+			// document under a published scenario, is executed by a second process and compared
+			CrossProcess: func(p *Plan) bool {
+				if p.Run%4 == 0 {
+					return true
+				}
+				for _, op := range p.Ops {
+					if op.K == "edit" && (op.S == "scenario" || op.S == "addons") {
+						return true
+					}
+				}
+				return false
+			},
 		}},
 	})
 }
@@ -426,6 +439,7 @@ func execC04(x *X) {
 			x.Probe("kfold")
 		}
 		x.Step(i, "slot", op.K, note+"|"+H(Marshal(s.env)))
+		x.Output(fmt.Sprintf("%d:%s", i, op.K), Marshal(s.env))
 		if len(x.R.Violations) > 0 {
 			break
 		}
